@@ -39,7 +39,7 @@ def build(pid: str | None, clean=False):
     res = C.BuildResult()
     with C.BuildLock():
         C.regenerate(res)
-        C.scan_forbidden(res)
+        C.scan_forbidden(res, pid)
         if pid is None:
             C.make([], res, clean=clean)
             return res, True
